@@ -65,6 +65,7 @@ func c03Scripts(g *Gen, id string, kind byte) []Action {
 		if rng.Chance(1, 2) {
 			return []Action{{Op: "obs"}, {Op: "buildurl", S: "route" + strconv.Itoa(rng.Intn(4))}, {Op: "next"}, {Op: "obs"}}
 		}
+		return []Action{{Op: "obs"}, {Op: "editquery"}, {Op: "next"}, {Op: "obs"}}
 	}
 	return nil
 }
